@@ -5,7 +5,7 @@
    without touching the physical order; K = 0 = disabled (all operations are no-ops).            *)
 EXTENDS Integers, Sequences, FiniteSets, TLC, Json
 
-CONSTANTS Keys, K
+CONSTANTS Keys, K, MaxBatch     \* MaxBatch: longest batch handed to extend (longer than K on purpose)
 
 VARIABLES q, ref, last
 vars == <<q, ref, last>>
@@ -23,6 +23,20 @@ Add(x) ==
             /\ ref' = [r1 EXCEPT ![x] = r1[x] + 1]
             /\ last' = [op |-> "add", k |-> x]
 
+\* extend(xs) = the adds of xs one after the other (a batch longer than K rolls over itself)
+RECURSIVE AddAll(_, _, _)
+AddAll(qq, rr, b) ==
+    IF b = <<>> THEN [q |-> qq, ref |-> rr]
+    ELSE LET x == Head(b)
+             full == Len(qq) >= K
+             q1 == IF full THEN Tail(qq) ELSE qq
+             r1 == IF full THEN Dec(rr, Head(qq)) ELSE rr
+         IN AddAll(Append(q1, x), [r1 EXCEPT ![x] = r1[x] + 1], Tail(b))
+Extend(b) ==
+    IF ~Enabled THEN UNCHANGED <<q, ref>> /\ last' = [op |-> "extend", b |-> b]
+    ELSE LET r == AddAll(q, ref, b) IN q' = r.q /\ ref' = r.ref /\ last' = [op |-> "extend", b |-> b]
+Batches == UNION {[1..n -> Keys] : n \in 0..MaxBatch}
+
 Discard(x) ==
     /\ q' = q
     /\ ref' = IF Enabled THEN Dec(ref, x) ELSE ref
@@ -33,7 +47,7 @@ Contains(x) ==
 
 Clear == q' = <<>> /\ ref' = [k \in Keys |-> 0] /\ last' = [op |-> "clear"]
 
-Next == (\E x \in Keys : Add(x) \/ Discard(x) \/ Contains(x)) \/ Clear
+Next == (\E x \in Keys : Add(x) \/ Discard(x) \/ Contains(x)) \/ Clear \/ (\E b \in Batches : Extend(b))
 Spec == Init /\ [][Next]_vars
 
 Count(x) == Cardinality({i \in 1..Len(q) : q[i] = x})
